@@ -27,7 +27,9 @@ static void fail(const char *fmt, ...) { va_list ap; if (failed) return; va_star
 static void mk_elem(unsigned char *e, size_t sz, unsigned key, unsigned idx) { size_t j; e[0] = (unsigned char)key; for (j = 1; j < sz; j++) e[j] = (unsigned char)((idx >> (8 * ((j - 1) % 2))) ^ (j > 2 ? 0x5a : 0)); }
 static unsigned long cmp_calls, cmp_limit;
 static unsigned char *g_arr; static size_t g_n, g_sz; static unsigned char *g_scratch;
-static int g_scratch_any;      /* vector entry points: WHERE the vector keeps its scratch element is its own business; it must be addressable storage outside the elements */
+static int g_scratch_any;      /* vector entry points: WHERE the vector keeps its one scratch element is its own business (behind the last slot, in front of the first);
+                                * it must be addressable storage outside the vector's element slots 0..capacity-1 */
+static size_t g_cap;
 static int in_array(const void *p) { uintptr_t d = (uintptr_t)p - (uintptr_t)g_arr; return g_n && (uintptr_t)p >= (uintptr_t)g_arr && d < g_n * g_sz && d % g_sz == 0; }
 static int cmp_key(const void *a, const void *b, void *priv)
 {
@@ -60,7 +62,7 @@ static void chk_swap(void *a, void *b, void *t, size_t len)
     if (!in_array(a) || !in_array(b)) fail("swap callback received a pointer outside the array (%p %p, array %p + %zu x %zu)", a, b, (void *)g_arr, g_n, g_sz);
     if (g_scratch_any) {
         const unsigned char *tt = t;
-        if (t == NULL || __asan_region_is_poisoned(t, len) != NULL || (tt < g_arr + g_n * g_sz && tt + len > g_arr)) fail("swap callback received a scratch pointer that is not usable storage outside the elements being sorted");
+        if (t == NULL || __asan_region_is_poisoned(t, len) != NULL || (tt < g_arr + (g_cap > g_n ? g_cap : g_n) * g_sz && tt + len > g_arr)) fail("swap callback received a scratch pointer that is not usable storage outside the vector's element slots (0..capacity-1): the sort may touch the array and ONE scratch element only");
     } else if (t != (void *)g_scratch) fail("swap callback received a scratch pointer that is not the scratch element");
     if (len != g_sz) fail("swap callback received length %zu for %zu-byte elements", len, g_sz);
     if (failed) return;
@@ -102,7 +104,7 @@ static void one_sort(const unsigned char *keys, size_t n, size_t sz, int algo_i,
         if (path == 2) cstl_vector_reserve(&v, n + 3);
         if (n) memcpy(cstl_vector_data(&v), orig, n * sz);
         arr = cstl_vector_data(&v);
-        g_arr = arr; g_n = n; g_sz = sz; g_scratch = NULL; g_scratch_any = 1;
+        g_arr = arr; g_n = n; g_sz = sz; g_scratch = NULL; g_scratch_any = 1; g_cap = cstl_vector_capacity(&v);
         SHIM_CALL(ab, __cstl_vector_sort(&v, cmp_key, &cmp_calls, use_chk_swap ? chk_swap : cstl_swap, (cstl_sort_algorithm_t)ALGOS[algo_i]));
         if (!ab && cstl_vector_data(&v) != (void *)arr) fail("the vector's buffer moved during sort");
     }
@@ -196,7 +198,7 @@ static void searches(const unsigned char *keys, size_t n, size_t sz, int sorted)
     record();
     cstl_vector_init(&v, sz); cstl_vector_resize(&v, n); if (n) memcpy(cstl_vector_data(&v), buf, n * sz);
     describe_case("reverse", keys, n, sz, 0, 1, 0);
-    g_arr = cstl_vector_data(&v); g_scratch = NULL; g_scratch_any = 1;
+    g_arr = cstl_vector_data(&v); g_scratch = NULL; g_scratch_any = 1; g_cap = cstl_vector_capacity(&v);
     SHIM_CALL(ab, cstl_vector_reverse(&v));
     if (ab) fail("vector reverse aborted");
     for (i = 0; i < n && !failed; i++) if (memcmp((unsigned char *)cstl_vector_data(&v) + i * sz, buf + (n - 1 - i) * sz, sz)) fail("vector reverse: element %zu is not the mirror image", i);
